@@ -3,11 +3,16 @@ package c07
 import (
 	"bytes"
 	"crypto/ecdsa"
+	"crypto/sha256"
 	"encoding/asn1"
 	"encoding/json"
 	"fmt"
 	"math/big"
+	"sort"
 	"strings"
+	"sync"
+
+	"github.com/golang/protobuf/proto"
 
 	"github.com/xuperchain/xupercore/bcs/ledger/xledger/state/utxo/txhash"
 	"github.com/xuperchain/xupercore/bcs/ledger/xledger/state/xmodel"
@@ -16,6 +21,63 @@ import (
 
 	"verif/world"
 )
+
+// ---------------------------------------------------------------------------
+// contractPayers: whose outputs does the contract code a transaction carries
+// spend? The harness executes the carried requests itself, through the node's
+// real pre-execution (Chain.PreExec: real sandbox, outputs selected from the
+// real state) on a FRESH world of the same setup, for the transaction's
+// initiator and signer list, and collects the owners of the outputs the code
+// selected. Requests that do not execute spend from nobody. Cached per (setup,
+// initiator, signer list, requests): pre-execution locks what it selects.
+
+var payerCache sync.Map // string -> map[string]bool
+
+func contractPayers(f *fixture, tx *pb.Transaction) map[string]bool {
+	h := sha256.New()
+	fmt.Fprintf(h, "%s\x00%q\x00%q\x00", f.rcp.Name, tx.Initiator, tx.AuthRequire)
+	for _, r := range tx.ContractRequests {
+		var ks []string
+		for k := range r.GetArgs() {
+			ks = append(ks, k)
+		}
+		sort.Strings(ks)
+		fmt.Fprintf(h, "%q %q %q %q|", r.GetModuleName(), r.GetContractName(), r.GetMethodName(), r.GetAmount())
+		for _, k := range ks {
+			fmt.Fprintf(h, "%q=%q,", k, r.Args[k])
+		}
+		fmt.Fprintf(h, "\x00")
+	}
+	key := string(h.Sum(nil))
+	if v, ok := payerCache.Load(key); ok {
+		return v.(map[string]bool)
+	}
+	payers := map[string]bool{}
+	func() {
+		defer func() { _ = recover() }()
+		g, err := f.rcp.instantiate()
+		if err != nil {
+			return
+		}
+		defer g.drop()
+		var reqs []*protos.InvokeRequest
+		for _, r := range tx.ContractRequests {
+			if r == nil {
+				return
+			}
+			reqs = append(reqs, proto.Clone(r).(*protos.InvokeRequest))
+		}
+		pre, err := g.w.PreExec(reqs, tx.Initiator, tx.AuthRequire)
+		if err != nil || pre == nil {
+			return
+		}
+		for _, in := range pre.UtxoInputs {
+			payers[string(in.FromAddr)] = true
+		}
+	}()
+	payerCache.Store(key, payers)
+	return payers
+}
 
 // ---------------------------------------------------------------------------
 // Reference predicate: the property statement's acceptance condition, written
@@ -326,11 +388,19 @@ func reference(f *fixture, tx *pb.Transaction) (v refVerdict) {
 		}
 	}
 	// owners of the spent outputs
+	// contract-justified inputs: listed in the record the transaction carries AND
+	// owned by somebody the carried code really spends from when the harness
+	// executes it itself ("performed by the contract code the transaction carries
+	// and reproduced when that code is re-executed"): a record entry the code's
+	// execution does not account for justifies nothing.
 	justified := map[string]bool{}
 	if len(tx.ContractRequests) > 0 {
-		if cin, err := xmodel.ParseContractUtxoInputs(tx); err == nil {
+		if cin, err := xmodel.ParseContractUtxoInputs(tx); err == nil && len(cin) > 0 {
+			payers := contractPayers(f, tx)
 			for _, in := range cin {
-				justified[fmt.Sprintf("%s\x00%x\x00%d", in.FromAddr, in.RefTxid, in.RefOffset)] = true
+				if payers[string(in.FromAddr)] {
+					justified[fmt.Sprintf("%s\x00%x\x00%d", in.FromAddr, in.RefTxid, in.RefOffset)] = true
+				}
 			}
 		}
 	}
